@@ -279,6 +279,12 @@ class InlineTranslator:
 
         # replace body aggregate with inlined version of the conditions
         rbody = [blit for blit in stm.body if not (blit.ast_type == ASTType.Literal and blit.atom == agg)]
+        # the aggregate's local variables become global: they must not meet a variable of the same name elsewhere
+        local_vars = set(chain(*map(lambda x: collect_ast(x, "Variable"), agg.elements))) - global_vars_inside_body(
+            list(stm.body)
+        )
+        if local_vars.intersection(chain(*map(lambda x: collect_ast(x, "Variable"), rbody))):
+            return [stm]
         new_minimizes = []
         max_arity = 0
         for tuple_ in self.minimize_tuples:
